@@ -73,6 +73,10 @@ type Sys struct {
 	events  []string // global, totally ordered record (same events as MV.Model.ActorSys.Event)
 	hazard  bool
 	current int // actor whose turn is running (-1: none)
+	// fanDead: graceful terminate requests of the running turn's fan-out (`for _, child := range
+	// ctx.children`, a Go map) that went to the dead letters; two of them in one turn appear in map
+	// iteration order in the dead-letter record, which the deterministic model cannot know either.
+	fanDead int
 	// extra park sites (op `park`): besides "mb.spop" (one message per quantum) the runners also stop
 	// at these mailbox sites, so that a quantum ends at every cross-actor interaction (fine suite)
 	extra map[string]bool
@@ -99,8 +103,11 @@ func (a *recAbyss) Terminate(source *prc.ProcessId) { a.inner.Terminate(source) 
 func (a *recAbyss) DeliveryUserMessage(receiver, sender, forward *prc.ProcessId, message prc.Message) {
 	a.s.mu.Lock()
 	if t, ok := message.(*prc.MessageWrapper); ok && sender == nil && receiver != nil {
-		if ot, isT := t.Message.(*vivid.OnTerminate); isT && ot.Gracefully && a.s.current == 0 {
-			a.s.hazard = true
+		if ot, isT := t.Message.(*vivid.OnTerminate); isT && ot.Gracefully && a.s.current >= 0 {
+			a.s.fanDead++
+			if a.s.current == 0 || a.s.fanDead >= 2 {
+				a.s.hazard = true
+			}
 		}
 	}
 	a.s.dead = append(a.s.dead, fmt.Sprintf("%s>%s:%s", a.s.name(sender), a.s.name(receiver), a.s.fmtMsg(message)))
@@ -474,7 +481,9 @@ func (s *Sys) RunActor(aid int) string {
 		return "skip"
 	}
 	before := len(s.actors)
-	s.current = aid
+	s.mu.Lock()
+	s.current, s.fanDead = aid, 0
+	s.mu.Unlock()
 	site, _, _, ok := s.sc.Step(tid)
 	s.current = -1
 	if !ok {
